@@ -99,13 +99,18 @@ func raceProgram(t *testing.T, prog string, il bool) {
 	var a, b *Association
 	var wg sync.WaitGroup
 	wg.Add(2)
+	block := strings.Contains(prog, "W1b")
 	go func() {
 		defer wg.Done()
-		a, _ = ClientWithOptions(WithNetConn(ca), WithLoggerFactory(nopLoggerFactory{}), WithEnableInterleaving(il), WithMTU(228))
+		a, _ = ClientWithOptions(WithNetConn(ca), WithLoggerFactory(nopLoggerFactory{}), WithEnableInterleaving(il), WithMTU(228), WithBlockWrite(block))
 	}()
 	go func() {
 		defer wg.Done()
-		b, _ = ServerWithOptions(WithNetConn(cb), WithLoggerFactory(nopLoggerFactory{}), WithEnableInterleaving(il), WithMTU(228))
+		opts := []ServerOption{WithNetConn(cb), WithLoggerFactory(nopLoggerFactory{}), WithEnableInterleaving(il), WithMTU(228)}
+		if block {
+			opts = append(opts, WithMaxReceiveBufferSize(1500))
+		}
+		b, _ = ServerWithOptions(opts...)
 	}()
 	wg.Wait()
 	if a == nil || b == nil {
@@ -147,8 +152,31 @@ func raceProgram(t *testing.T, prog string, il bool) {
 			}
 		}()
 	}
-	if has("W1") {
+	one := func(f func()) {
+		work.Add(1)
+		go func() { defer work.Done(); f() }()
+	}
+	if has("W1b") {
+		// blocking-write mode against a small peer buffer that nobody empties: the writers
+		// end up waiting for the window; two of them share the stream
+		writer(sa1, 8, 500)
+		writer(sa1, 8, 500)
+	} else if has("W1") {
 		writer(sa1, 6, 150)
+	}
+	if has("De") {
+		one(func() {
+			_ = sb1.SetReadDeadline(time.Now().Add(20 * time.Millisecond))
+			time.Sleep(40 * time.Millisecond)
+			buf := make([]byte, 4000)
+			for i := 0; i < 3; i++ {
+				if _, _, err := sb1.ReadSCTP(buf); errors.Is(err, ErrReadDeadlineExceeded) {
+					_ = sb1.SetReadDeadline(time.Now().Add(20 * time.Millisecond))
+				} else if err != nil {
+					return
+				}
+			}
+		})
 	}
 	if has("W2") {
 		writer(sa2, 6, 300)
@@ -167,10 +195,6 @@ func raceProgram(t *testing.T, prog string, il bool) {
 	}
 	if has("Ra") {
 		reader(sa1)
-	}
-	one := func(f func()) {
-		work.Add(1)
-		go func() { defer work.Done(); f() }()
 	}
 	if has("Q") {
 		one(func() {
@@ -257,6 +281,7 @@ func TestVerifRace(t *testing.T) {
 	progs := []string{
 		"W1 W2 R1 R2", "W1 Q R1", "W1 R1 Xs", "W1 R1 Xh", "W1 R1 Xc", "W1 R1 Xa", "R1 R1x W1 Xcb", "W1 R1 D", "W1 Wb R1 Ra",
 		"Xc Xcb W1", "Xa Xc R1", "Xh Xhb W1 Wb R1 Ra", "W1 Q Xs R1", "R1 R1x Xa",
+		"W1 Xs De", "W1 Xa De", "W1b Xh", "W1b Xc", "W1b Xa",
 	}
 	reps := envInt("VERIF_RACE_REPS", 3)
 	shard, n := envInt("VERIF_SHARD", 0), envInt("VERIF_NSHARDS", 1)
